@@ -21,7 +21,8 @@ THEOREMS = ["C18_history", "C18_init", "C18_tags", "C18_generated_good", "C18_ex
 RULE = (
     "histories of 2..4 interpreter runs over one cache directory; per run: the hooked subset of {a, b, c} "
     "(a imports b at its top level), the typechecker (two spies or None), the import order, and optionally "
-    "a source edit of one module before the run; quick: 6 fixed histories that cover hooked->unhooked, "
+    "a source edit of one module before the run (changing the mtime, or changing only the size), optionally a "
+    "hooked module that does not compile imported (and caught) first; quick: 9 fixed histories that cover hooked->unhooked, "
     "unhooked->hooked, nested imports in both directions, checker change and edit, plus seeded random "
     "ones; non-trivial = the run re-reads a module cached by an earlier run under a different "
     "configuration; distinct by history"
@@ -46,8 +47,14 @@ RUNNER = textwrap.dedent('''
     sys.path[:0] = [root, repo]
     import jaxtyping
     hook = None
-    if spec["hooked"]:
-        hook = jaxtyping.install_import_hook([prefix + m for m in spec["hooked"]], spec["checker"])
+    if spec["hooked"] or spec.get("broken"):
+        hook = jaxtyping.install_import_hook([prefix + m for m in spec["hooked"]] + ([prefix + "broken"] if spec.get("broken") else []), spec["checker"])
+    if spec.get("broken"):
+        # a hooked module whose source does not compile: the program catches the error and carries on
+        try:
+            importlib.import_module(prefix + "broken")
+        except SyntaxError:
+            pass
     for m in spec["order"]:
         importlib.import_module(prefix + m)
     if hook: hook.uninstall()
@@ -63,19 +70,23 @@ RUNNER = textwrap.dedent('''
 ''')
 
 
-def write_sources(root, prefix, versions):
+def write_sources(root, prefix, versions, mtimes=None):
     for m, src in MOD_SRC.items():
         path = os.path.join(root, prefix + m + ".py")
         with open(path, "w") as fh:
             fh.write(src.replace("{P}", prefix).replace("{V}", str(versions[m])))
-        # make the edit visible to the pyc validation whatever the mtime granularity
-        t = 1_600_000_000 + 10 * versions[m]
+        # make the edit visible to the pyc validation whatever the mtime granularity; an edit that keeps
+        # the mtime (same second, or a tool that pins mtimes) changes the SIZE of the source instead
+        t = 1_600_000_000 + 10 * (mtimes or versions)[m]
         os.utime(path, (t, t))
+    with open(os.path.join(root, prefix + "broken.py"), "w") as fh:
+        fh.write("def f(x: int) -> int:\n    return (x\n")
 
 
 def run_history(root, prefix, history):
     versions = {"a": 1, "b": 1, "c": 1}
-    write_sources(root, prefix, versions)
+    mtimes = dict(versions)
+    write_sources(root, prefix, versions, mtimes)
     outs = []
     env = {k: v for k, v in os.environ.items() if k != "PYTHONDONTWRITEBYTECODE"}
     env["PYTHONPYCACHEPREFIX"] = ""
@@ -83,7 +94,12 @@ def run_history(root, prefix, history):
     for run in history:
         if run.get("edit"):
             versions[run["edit"]] += 1
-            write_sources(root, prefix, versions)
+            mtimes[run["edit"]] = versions[run["edit"]]
+            write_sources(root, prefix, versions, mtimes)
+        if run.get("edit_keep_mtime"):
+            m = run["edit_keep_mtime"]
+            versions[m] = versions[m] * 10 + 7      # one more digit: the size changes, the mtime does not
+            write_sources(root, prefix, versions, mtimes)
         p = subprocess.run([PY, "-c", RUNNER, root, REPO, prefix, json.dumps(run)], env=env, capture_output=True, text=True, timeout=300)
         line = next((l for l in p.stdout.splitlines() if l.startswith("RESULT ")), None)
         if line is None:
@@ -121,6 +137,13 @@ FIXED = [
     [{"hooked": ["b"], "checker": "spy_a.check", "order": ["b"]}, {"hooked": [], "checker": None, "order": ["b"], "edit": "b"}, {"hooked": ["b"], "checker": "spy_a.check", "order": ["b"]}],
     # b first on its own, then through a
     [{"hooked": [], "checker": None, "order": ["b", "a"]}, {"hooked": ["b"], "checker": "spy_b.check", "order": ["a"]}, {"hooked": ["a"], "checker": "spy_b.check", "order": ["b", "a"]}],
+    # a hooked module that does not compile is attempted first; the un-hooked c is imported afterwards in the
+    # same process; the next run hooks c
+    [{"hooked": [], "broken": True, "checker": "spy_a.check", "order": ["c"]}, {"hooked": ["c"], "checker": "spy_a.check", "order": ["c"]}],
+    [{"hooked": ["a"], "broken": True, "checker": "spy_b.check", "order": ["a", "c"]}, {"hooked": ["b", "c"], "checker": "spy_b.check", "order": ["a", "c"]}, {"hooked": [], "checker": None, "order": ["b", "a"]}],
+    # an edit that changes the size of the source but not its mtime, hooked and un-hooked
+    [{"hooked": ["c"], "checker": "spy_a.check", "order": ["c", "b"]}, {"hooked": ["c"], "checker": "spy_a.check", "order": ["c", "b"], "edit_keep_mtime": "c"},
+     {"hooked": ["c"], "checker": "spy_a.check", "order": ["c", "b"], "edit_keep_mtime": "b"}],
     # None checker then a real spy
     [{"hooked": ["a", "b", "c"], "checker": None, "order": ["c", "a"]}, {"hooked": ["a", "b", "c"], "checker": "spy_a.check", "order": ["a", "c"]}],
 ]
@@ -134,6 +157,10 @@ def gen_history(rng):
         run = {"hooked": hooked, "checker": rng.choice(["spy_a.check", "spy_b.check", None]), "order": order}
         if rng.chance(1, 4):
             run["edit"] = rng.choice(["a", "b", "c"])
+        elif rng.chance(1, 5):
+            run["edit_keep_mtime"] = rng.choice(["a", "b", "c"])
+        if rng.chance(1, 5):
+            run["broken"] = True
         h.append(run)
     return h
 
